@@ -126,6 +126,8 @@ let parse_file (path : string) : Trace.tev list * stats =
         | _ -> ()
       end else begin
         match f with
+        | _ :: c :: _ when S.length c > 1 && S.get c 0 = '?' -> push Trace.TOther   (* a connection the harness did not label (restart probe) *)
+        | "MQREQ" :: _ :: _ :: _ :: _ :: c :: _ when S.length c > 1 && S.get c 0 = '?' -> push Trace.TOther
         | ["CONN"; c] -> push (Trace.TConn (conn_of c))
         | ["DISC"; c] -> push (Trace.TDisc (conn_of c))
         | ["REQ"; c; id; kind; r; extra] ->
@@ -231,7 +233,10 @@ let parse_file (path : string) : Trace.tev list * stats =
           let bad = L.filter (fun (k, want) -> get k <> want)
               [("returned", "true"); ("cause", "true"); ("elapsed_ok", "true"); ("clients_closed", string_of_bool exp_clients_closed);
                ("refused", string_of_bool exp_refused); ("http", "503"); ("restarted", string_of_bool exp_restart); ("second_stop", "true");
-               ("during_refused", string_of_bool (snd (step (fst (step s0 (StopBegin (nat_of_int 1)))) NewConn) = Refused)); ("during_http", "503")] in
+               ("during_refused", string_of_bool (snd (step (fst (step s0 (StopBegin (nat_of_int 1)))) NewConn) = Refused)); ("during_http", "503");
+               (* Lifecycle.start_empties_cache: after Stop; Start nothing loaded before is still cached *)
+               ("fresh_cache", string_of_bool (int_of_nat (fst (step (fst (step (fst (step s0 NewConn)) Load)) (StopBegin (nat_of_int 1)))).cached >= 0
+                                               && int_of_nat (fst (step s3 Start)).cached = 0))] in
           stop_bad := L.map (fun (k, _) -> (kind ^ ":" ^ k ^ "=" ^ get k, st.lines)) bad @ !stop_bad;
           push Trace.TOther
         | "STALL" :: _ -> st.stall <- true
